@@ -25,6 +25,7 @@ from mc import progspace as ps
 from mc.harness import ShardResult
 from mc.harness import h64
 from mc.lang import Layout
+from mc.vloop import run_solo
 from mc.lang import marker_positions
 from mc.lang import print_program
 
@@ -183,6 +184,8 @@ def plan(tier: str, seed: int):
         for i in order:
             shards.append((tier, seed, name, i))
         total += len(items)
+    shards.append((tier, seed, "shared", 0))
+    total += len(shared_cases())
     meta = {
         "space_size": total,
         "subspaces": {name: {"programs": len(items), "assignments": sum(_n_assignments(k, name) for _, k in items)} for name, items in _STATE["subs"].items()},
@@ -337,8 +340,74 @@ def check_program(name: str, prog: tuple, k: int, res: ShardResult | None, only:
     return out
 
 
+# ------------------------------------------------------------------ one caching loader shared by two environments
+
+SHARED_PARTS = {"part": "  p {{ x }}  \n  \n  tail  ", "base": " <  {% block b %}  B  {% endblock %}  > \n", "raws": "  {% raw %}  r  {% endraw %}  \n"}
+SHARED_MAINS = [
+    "  head \n {% include 'part' %} \n foot ", " a {% render 'part', x: 1 %} b ", "{% extends 'base' %}{% block b %}  over {{ block.super }} {% endblock %}",
+    " {% include 'raws' %} | {% render 'raws' %} ", "{% for i in (1..2) %} {% include 'part' %} {% endfor %}",
+]
+
+
+def shared_cases() -> list[tuple]:
+    return [(first, second, main, how, mode) for first in "+-~" for second in "+-~" if first != second for main in range(len(SHARED_MAINS))
+            for how in ("render-main", "get-partials") for mode in ("sync", "async")]
+
+
+def check_shared(case: tuple, res: ShardResult | None) -> list[tuple[str, Any, Any, Any]]:
+    """History: the environment whose default trim is `first` loads everything through the shared caching loader; then
+    the environment whose default trim is `second` renders. What it renders is what it renders with a loader of its own
+    (the trim mode in force is the rendering environment's, whoever loaded a template before)."""
+    from liquid2 import CachingDictLoader
+    from liquid2 import DictLoader
+
+    first, second, mi, how, mode = case
+    main = SHARED_MAINS[mi]
+    shared = CachingDictLoader({**SHARED_PARTS, "main": main})
+    e1 = impl.make_env(trim=first, loader=shared)
+    e2 = impl.make_env(trim=second, loader=shared)
+    own = impl.make_env(trim=second, loader=DictLoader({**SHARED_PARTS, "main": main}))
+    d = {"x": "X"}
+
+    def run(env: Any) -> tuple[str, Any]:
+        try:
+            if mode == "async":
+                async def go() -> str:
+                    t = await env.get_template_async("main")
+                    return await t.render_async(**d)
+
+                kind, val = run_solo(go())
+                if kind != "ok":
+                    raise val
+                return ("ok", val)
+            return ("ok", env.get_template("main").render(**d))
+        except LiquidError as e:
+            return ("liquid", type(e).__name__)
+
+    if how == "render-main":
+        run(e1)
+    else:
+        for nm in SHARED_PARTS:
+            e1.get_template(nm)
+    got, want = run(e2), run(own)
+    if res is not None:
+        res.evaluations += 3
+        res.outcomes.add(h64([want]))
+        res.nontrivial.add(h64(list(case)))
+    if got != want:
+        return [(f"C18:shared-loader-changes-output:{mode}", {"shared": list(case), "main": main, "partials": SHARED_PARTS}, want, got)]
+    return []
+
+
 def run_shard(shard) -> ShardResult:
     tier, seed, name, i = shard
+    if name == "shared":
+        res = ShardResult()
+        for c in shared_cases():
+            res.cases += 1
+            for sig, extra, exp, obs in check_shared(c, res):
+                res.violation(sig, {"tier": tier, "seed": seed, "space": "shared", **extra}, exp, obs)
+        return res
     _setup(tier, seed)
     prog, k = _STATE["subs"][name][i]
     res = ShardResult()
@@ -370,6 +439,11 @@ def _repro(prog: tuple, extra: dict[str, Any], seed: int) -> str:
 
 
 def replay(case: dict[str, Any]) -> list[dict[str, Any]]:
+    if case.get("space") == "shared":
+        res = ShardResult()
+        for sig, extra, exp, obs in check_shared(tuple(case["shared"]), None):
+            res.violation(sig, {**case, **extra}, exp, obs)
+        return res.violations
     _setup(case.get("tier", "quick"), case.get("seed", 0))
     prog = ps.totuple(case["prog"])
     k = marker_positions(prog)
